@@ -206,7 +206,30 @@ func (s *Solver) define(t *Term) {
 			continue
 		}
 		s.defined[n.id] = true
-		s.send(fmt.Sprintf("(define-fun t%d () %s %s)", n.id, n.sort, n.body()))
+		if strings.HasPrefix(n.op, "bv:") && s.ts.BvUF {
+			p := strings.Split(n.op, ":")
+			fname := p[1] + "_" + p[2]
+			if !s.ufDone["bv!"+fname] {
+				s.ufDone["bv!"+fname] = true
+				s.send(fmt.Sprintf("(declare-fun |%s| (Int Int) Int)", fname))
+			}
+		}
+		s.send(fmt.Sprintf("(define-fun t%d () %s %s)", n.id, n.sort, n.bodyM(s.ts.BvUF)))
+		if strings.HasPrefix(n.op, "bv:") && s.ts.BvUF {
+			a, b := n.args[0].ref(), n.args[1].ref()
+			s.send(fmt.Sprintf("(assert (<= 0 t%d))", n.id))
+			if n.hi != nil {
+				s.send(fmt.Sprintf("(assert (<= t%d %s))", n.id, intLit(n.hi)))
+			}
+			switch {
+			case strings.Contains(n.op, "bvand"):
+				s.send(fmt.Sprintf("(assert (and (<= t%d %s) (<= t%d %s)))", n.id, a, n.id, b))
+			case strings.Contains(n.op, "bvor"):
+				s.send(fmt.Sprintf("(assert (and (>= t%d %s) (>= t%d %s) (<= t%d (+ %s %s))))", n.id, a, n.id, b, n.id, a, b))
+			case strings.Contains(n.op, "bvxor"):
+				s.send(fmt.Sprintf("(assert (<= t%d (+ %s %s)))", n.id, a, b))
+			}
+		}
 		// range facts for UF applications
 		if strings.HasPrefix(n.op, "uf:") && n.sort == SInt {
 			if n.lo != nil {
